@@ -27,6 +27,10 @@ def ser_node(n, reg, dynamic=False):
     k = n[0]
     if k == "text":
         return f"[{n[1]}]"
+    if k == "fp":
+        if n[2] == "filter":
+            return '{{ "[' + n[1] + ']"|vffilter }}'
+        return '{% vftag "[' + n[1] + ']" %}'
     if k == "elem":
         return f"<e{n[1]}>" + ser_nodes(n[2], reg, dynamic) + f"</e{n[1]}>"
     if k == "if":
@@ -226,6 +230,8 @@ class ProgGen:
             self.weights.update(var=2.0, **{"with": 0.8}, probe=0.0)
         if flavour == "provide":
             self.weights.update(provide=2.2, probe=0.0)
+        if flavour == "faults":
+            self.weights.update(provide=0.8, probe=0.2)
         self.classes = {}
         self.slotnames = {}
         self.page_ctx = {}
@@ -255,7 +261,7 @@ class ProgGen:
                 for v in VAR_NAMES:
                     if rng.random() < 0.5:
                         self.cur_data[v] = f"D{cname}.{v}"
-            if self.flavour == "provide" and rng.random() < 0.6:
+            if self.flavour in ("provide", "faults") and rng.random() < 0.6:
                 for key in PROVIDE_KEYS:
                     if rng.random() < 0.6:
                         spec["inject"].append([key, f"DEF-{key}" if rng.random() < 0.9 else None])
@@ -345,6 +351,8 @@ class ProgGen:
         return out
 
     def gen_text(self, budget, depth, in_comp, in_fill, allowed, loops):
+        if self.flavour == "faults" and self.rng.random() < 0.45:
+            return ["fp", self.t(), self.rng.choice(["filter", "tag"])]
         return ["text", self.t()]
 
     def gen_elem(self, budget, depth, in_comp, in_fill, allowed, loops):
